@@ -807,7 +807,15 @@ func SexpToGoStructs(
 			// already did it. Return alreadyGoStruct.
 			cacheHit = true
 			vo := reflect.ValueOf(alreadyGoStruct).Elem()
-			targVa.Elem().Set(vo)
+			dst := targVa.Elem()
+			if vo.Kind() == reflect.Interface && !vo.IsNil() && !vo.Type().AssignableTo(dst.Type()) {
+				// first converted into an interface-typed slot: share the object that slot holds
+				vo = vo.Elem()
+			}
+			if !vo.Type().AssignableTo(dst.Type()) {
+				return nil, fmt.Errorf("record '%s' is referenced twice, once as %v and once as %v", src.TypeName, vo.Type(), dst.Type())
+			}
+			dst.Set(vo)
 
 			return target, nil
 		}
